@@ -55,6 +55,8 @@ def sweep(ctx, rule, name, what, pred, fmt, site):
 
 
 def r1(ctx):
+    from .capacity import stale_copies
+    stale_copies(ctx, "C05.R1")
     cap = capacity(ctx)
     o1 = cap.overhead(1)
     fo = cap.FRAG_OVERHEAD
@@ -398,4 +400,63 @@ def r7(ctx, RULE="C05.R7"):
 
 EXPLANATION = EXPLANATION + ' (R7) receiver side: a reassembly context is opened only for a fragment id that has none, the expiry runs only after the arriving fragment was stored, and a context is discarded only after its message was delivered - the last obligation is violated on the pinned tree (known finding, DESIGN 8.4).'
 
-RULES = [("C05.R6", r6), ("C05.R1", r1), ("C05.R2", r2), ("C05.R3", r3), ("C05.R4", r4), ("C05.R5", r5), ("C05.R7", r7)]
+def r8(ctx):
+    """a retransmission travels under the message's original number (C04); the receiver may refuse a message only as a
+    duplicate it has really seen.  (a) every `raise DuplicationError` of the package is inside BitField.insert; (b) for the
+    message window, insert accepts every number it has no record of: newer ones, unset bits inside the window and - the
+    flip side of the known finding C04.R1 - numbers older than the window; (c) _recv_message drops a message before
+    dispatch only in the DuplicationError handler of that insert."""
+    from . import c04
+    ins = ctx.fn(c04.INS)
+    raises = []
+    for fi in ctx.repo.all_functions():
+        if fi.is_lambda or fi.module.name not in ("connection", "server", "client", "context", "twisted"):
+            continue
+        for n in walk_own(fi.node):
+            if isinstance(n, ast.Raise) and n.exc is not None and "DuplicationError" in norm(n.exc):
+                raises.append((fi, n))
+    outside = [(f, n) for (f, n) in raises if f.qual != ins.qual]
+    ctx.require("C05.R8", ins, "raise DuplicationError in BitField.insert", len(raises) - len(outside), 1)
+    for (f, n) in outside:
+        ctx.violated("C05.R8", f, n, "a message / datagram is refused as a duplicate outside BitField.insert: a retransmission (same number, fresh datagram) "
+                     "that is merely old is dropped while its datagram is acknowledged", line=n.lineno)
+    if not outside:
+        ctx.holds("C05.R8", ins, "DuplicationError is raised only by BitField.insert", "%d raise site(s)" % len(raises))
+    wins = c04.windows(ctx)
+    nb = wins.get("bitfield_msg")
+    if not ctx.require("C05.R8", ins, "message window self.bitfield_msg = BitField(n)", 1 if nb else 0, 1):
+        return
+    T = ctx.folder.class_attr(ctx.repo.cls("connection:SeqNum"), "_threshold")
+    for (name, cell) in (("newer beyond window", (-T, -nb - 1)), ("newer inside window", (-nb, -1)), ("older than window", (nb + 1, T))):
+        outs, used, _ = c04.explore_insert(ctx, nb, cell)
+        outs2 = [o for o in outs if not any(lab and "current_seqnum == 0" in lab and pol and "not" not in lab for (lab, pol) in o.path)]
+        rej = [o for o in outs2 if o.kind == "raise"]
+        ctx.check(bool(outs2) and not rej, "C05.R8", ins, "bitfield_msg nbits=%d cell=%s: accepted" % (nb, name),
+                  "a number the window has no record of is not refused (a late retransmission of a guaranteed message must still be delivered)",
+                  witness=[repr(o) for o in rej][:2])
+    rm = ctx.fn("connection:ConnectionBase._recv_message")
+    cfg = cfg_of(rm)
+    calls = [c for c in calls_named(rm, "insert") if norm(c.func) == "self.bitfield_msg.insert"]
+    if not ctx.require("C05.R8", rm, "self.bitfield_msg.insert(...) in _recv_message", len(calls), 1):
+        return
+    from .common import enclosing_trys
+    trys = enclosing_trys(calls[0])
+    body_calls = [c for t in trys[:1] for s in t.body for c in ast.walk(s) if isinstance(c, (ast.Call, ast.Raise))]
+    extra = [c for c in body_calls if not (isinstance(c, ast.Call) and (c is calls[0] or norm(c.func) in ("self.bitfield_msg.insert",)))]
+    extra = [c for c in extra if not (isinstance(c, ast.Call) and norm(c.func) in ("SeqNum", "int", "len"))]
+    ctx.check(bool(trys) and not extra, "C05.R8", rm, "the try around the duplicate test contains nothing else that can refuse the message",
+              witness=[norm(c)[:80] for c in extra])
+    # early returns before the dispatch chain, other than the handler's
+    disp = [n for n in cfg.nodes if n.kind == "test" and n.ast is not None and "pkt_typ" in norm(n.ast)]
+    first = min((n.id for n in disp), default=None)
+    handlers = {id(s) for t in trys for h in t.handlers for s in ast.walk(h)}
+    early = [n for n in cfg.stmts((ast.Return, ast.Raise)) if id(n.ast) not in handlers and first is not None
+             and first not in cfg.reachable(n.id) and not any(cfg.dominates(d.id, n.id) for d in disp)]
+    ctx.check(not early, "C05.R8", rm, "no other way out of _recv_message before the dispatch on the message type", witness=[norm(n.ast)[:80] for n in early])
+
+
+EXPLANATION = EXPLANATION + (" (R8) a retransmission is never refused for being old: DuplicationError is raised only by BitField.insert, the message window accepts every "
+                             "number it has no record of (including numbers older than the window - the flip side of the known finding C04.R1), and _recv_message "
+                             "drops a message before dispatch only in the handler of that test.")
+
+RULES = [("C05.R6", r6), ("C05.R1", r1), ("C05.R2", r2), ("C05.R3", r3), ("C05.R4", r4), ("C05.R5", r5), ("C05.R7", r7), ("C05.R8", r8)]
